@@ -324,7 +324,35 @@ func C20(p *core.Program, r *core.Report) {
 			if f := hc.Common().StaticCallee(); f != nil && core.IsRepo(f) && f.Blocks != nil && len(f.Params) == 2 {
 				nowArg, isNow := hc.Common().Args[0].(*ssa.Call)
 				okNow := isNow && core.NameIs(core.CalleeName(nowArg), bp7+".DtnTimeNow")
-				okZero, okDiff := false, false
+				okZero, okDiff, okSign := false, false, false
+				// timestamp == 0 => 0: every return reachable from the true edge of that test returns the constant 0
+				for _, blk := range f.Blocks {
+					ifi, isIf := blk.Instrs[len(blk.Instrs)-1].(*ssa.If)
+					if !isIf {
+						continue
+					}
+					b, isB := ifi.Cond.(*ssa.BinOp)
+					if !isB || b.Op != token.EQL || b.X != ssa.Value(f.Params[1]) {
+						continue
+					}
+					if z, isC := core.ConstInt(b.Y); !isC || z != 0 {
+						continue
+					}
+					all, any := true, false
+					reach := core.BlocksReachableFrom(blk.Succs[0])
+					for _, ret := range core.Returns(f) {
+						if !reach[ret.Block()] {
+							continue
+						}
+						any = true
+						if k, isC := core.ConstInt(ret.Results[0]); !isC || k != 0 {
+							all = false
+						}
+					}
+					if all && any {
+						okZero = true
+					}
+				}
 				for _, rv := range core.ReturnValues(f, 0) {
 					if k, isC := core.ConstInt(rv.V); isC && k == 0 {
 						cs := core.DominatingConds(rv.At.Block())
@@ -348,12 +376,27 @@ func C20(p *core.Program, r *core.Report) {
 						}
 						continue
 					}
-					if sub, isSub := core.Strip(rv.V).(*ssa.BinOp); isSub && sub.Op == token.SUB && sub.X == ssa.Value(f.Params[0]) && sub.Y == ssa.Value(f.Params[1]) {
+					var sub *ssa.BinOp
+					core.DependsOn(rv.V, func(v ssa.Value) bool {
+						if bo, isB := v.(*ssa.BinOp); isB && bo.Op == token.SUB && bo.X == ssa.Value(f.Params[0]) && bo.Y == ssa.Value(f.Params[1]) {
+							sub = bo
+							return true
+						}
+						return false
+					})
+					if sub != nil {
 						okDiff = true
+						// the unsigned difference is taken only when the loss time is not ahead of the clock: a time
+						// stamp in the future would be a huge unsigned / negative signed cost (no termination of the path search)
+						for _, cd := range core.DominatingConds(sub.Block()) {
+							if big, small, _, isOrd := core.CondGreater(cd); isOrd && big == ssa.Value(f.Params[0]) && small == ssa.Value(f.Params[1]) {
+								okSign = true
+							}
+						}
 					}
 				}
-				ok = okNow && okZero && okDiff
-				detail = fmt.Sprintf("helper %s: first argument is DtnTimeNow(): %v, returns 0 on timestamp==0: %v, otherwise now-timestamp: %v", f.Name(), okNow, okZero, okDiff)
+				ok = okNow && okZero && okDiff && okSign
+				detail = fmt.Sprintf("helper %s: first argument is DtnTimeNow(): %v, returns 0 on timestamp==0: %v, otherwise now-timestamp: %v, difference only taken when now >= timestamp: %v", f.Name(), okNow, okZero, okDiff, okSign)
 			}
 		}
 		if phi, isPhi := cost.(*ssa.Phi); isPhi && len(phi.Edges) == 2 {
@@ -380,13 +423,18 @@ func C20(p *core.Program, r *core.Report) {
 							}
 						}
 					}
-					_ = diffPred
-					ok = okNow && okZero
-					detail = fmt.Sprintf("now-timestamp: %v; zero on timestamp==0: %v", okNow, okZero)
+					okSign := false
+					for _, cd := range core.DominatingConds(diffPred) {
+						if big, small, _, isOrd := core.CondGreater(cd); isOrd && big == sub.X && small == sub.Y {
+							okSign = true
+						}
+					}
+					ok = okNow && okZero && okSign
+					detail = fmt.Sprintf("now-timestamp: %v; zero on timestamp==0: %v; difference only taken when now >= timestamp: %v (a loss time ahead of the local clock gives a negative cost, the path search of the dijkstra library then does not terminate and holds the algorithm's lock)", okNow, okZero, okSign)
 				}
 			}
 		}
-		r.Check(ok, fmt.Sprintf("arc-cost/%s/AddArc#%d", fname(crt), nArc), "a live link (timestamp 0) costs 0, a lost link costs now - lossTime", p.Pos(c.Pos()), detail, "cost expression changed: "+detail)
+		r.Check(ok, fmt.Sprintf("arc-cost/%s/AddArc#%d", fname(crt), nArc), "a live link (timestamp 0) costs 0, a lost link costs now - lossTime, and the cost is never negative (a loss time ahead of the clock costs 0)", p.Pos(c.Pos()), detail, "cost expression changed: "+detail)
 	}
 	r.Min("AddArc calls", 2)
 	r.Count("AddArc calls", nArc)
@@ -718,4 +766,53 @@ func checkBroadcastOncePerPeer(p *core.Program, r *core.Report) {
 	r.Count("selection sites in filterCLAs", n)
 	sfb := p.Func(routingPkg, "DTLSR", "SenderForBundle")
 	r.Check(len(core.CallsTo(sfb, routingPkg+".filterCLAs")) > 0, "broadcast/"+fname(sfb)+"/uses-filter", "DTLSR selects the receivers of broadcast bundles through filterCLAs", p.Pos(sfb.Pos()), "", "no call to filterCLAs")
+}
+
+// checkArcCostsNonNegative (shared with C04, "never loops for ever" on bytes from the network): the dijkstra library
+// terminates only for non-negative edge costs. Costs come from time stamps in received link-state blocks; the unsigned
+// difference now - lossTime is negative as int64 when the stamp is ahead of the local clock. Every unsigned time
+// difference that flows into a Graph.AddArc cost is taken behind now >= lossTime.
+func checkArcCostsNonNegative(p *core.Program, r *core.Report) {
+	crt := p.Func(routingPkg, "DTLSR", "computeRoutingTable")
+	n := 0
+	for _, c := range core.CallsTo(crt, "github.com/RyanCarrier/dijkstra.Graph.AddArc") {
+		n++
+		cost := core.Arg(c, 2)
+		// collect the subtractions the cost depends on, in crt or in a helper it calls for the cost
+		type site struct {
+			sub *ssa.BinOp
+		}
+		var subs []site
+		collect := func(v ssa.Value) {
+			core.DependsOn(v, func(x ssa.Value) bool {
+				if bo, ok := x.(*ssa.BinOp); ok && bo.Op == token.SUB {
+					subs = append(subs, site{bo})
+				}
+				return false
+			})
+		}
+		collect(cost)
+		if hc, isCall := cost.(*ssa.Call); isCall {
+			if f := hc.Common().StaticCallee(); f != nil && core.IsRepo(f) && f.Blocks != nil {
+				for _, rv := range core.ReturnValues(f, 0) {
+					collect(rv.V)
+				}
+			}
+		}
+		ok := true
+		for _, s := range subs {
+			guarded := false
+			for _, cd := range core.DominatingConds(s.sub.Block()) {
+				if big, small, _, isOrd := core.CondGreater(cd); isOrd && big == s.sub.X && small == s.sub.Y {
+					guarded = true
+				}
+			}
+			if !guarded {
+				ok = false
+			}
+		}
+		r.Check(ok, fmt.Sprintf("arc-cost/%s/non-negative#%d", fname(crt), n), "an edge cost handed to the shortest-path library is never negative: each time difference in it is taken only behind now >= lossTime", p.Pos(c.Pos()), fmt.Sprintf("%d difference(s)", len(subs)), "a time stamp from a received link-state block that lies ahead of the local clock gives a negative cost; with a cycle through such an edge the path search never terminates and keeps the algorithm's lock: the node stops processing every convergence-layer event")
+	}
+	r.Min("AddArc calls", 2)
+	r.Count("AddArc calls", n)
 }
